@@ -3,7 +3,7 @@
    Namespace clash name, what yaml_load answered for every string involved, and one observation per
    (parser mode, channel): what the real parser stored for the key, or that it rejected / crashed; for document
    channels also what the mode's loader made of the document at that key. *)
-From JV Require Import Lib.Base Lib.Regex Model.TyVal Model.Scalar Model.Ty Model.TyLoader Model.C05Channels Model.C05History Spec.C05Spec Spec.C02Guard.
+From JV Require Import Lib.Base Lib.Regex Model.TyVal Model.Scalar Model.Ty Model.TyLoader Model.C05Channels Model.C05History Model.C05Plain Spec.C05Spec Spec.C02Guard.
 
 Record ob := {
   o_yaml : bool;                 (* parser_mode = yaml: the observation is compared with the model *)
@@ -178,10 +178,58 @@ Definition judge1h (h : hcase) : verdict :=
      v_class := 0;
      v_spec := c05_spec (map h_clean (h_obs h) ++ map h_after (h_obs h)) |}.
 
+(* ---- options with nargs / choices / a plain callable type (Model/C05Plain.v) ---------------------------------------
+   One case = one option `--k` declared with (callable or type hint, nargs, choices) and one logical setting: the
+   element texts as they follow the option string, the text put into the environment variable, the value handed to
+   parse_object / written into the documents.  Classes: 0 inside plain_guard (C05_plain_channels_agree);
+   1 None where not admitted; 8 finding nargs-count-unchecked (a number of values the nargs pattern does not admit:
+   the command line rejects, the config channels never count); 9 finding typed-choices-raw-argv (type hint + choices:
+   argparse tests the raw strings; the setting otherwise inside the guard); 6 anything else. *)
+(* true: the tree as it is; false once fixes/C05-typed-choices-raw-argv.patch has landed in /repo (then also drop class 9
+   from FINDING_CLASSES and turn the open: line into fixed:) *)
+Definition raw_choices_checked : bool := true.
+
+Record pcase := {
+  p_fun : pfun; p_nargs : nargs; p_choices : list val;
+  p_toks : list str; p_text : str; p_val : val;
+  p_oracle : list (str * lres);
+  p_obs : list ob }.
+
+Definition pyl (p : pcase) : str -> lres := case_yload (p_oracle p).
+Definition pE (p : pcase) : val -> ares := elem pinned (pyl p) (p_fun p).
+
+Definition model_ob_plain (p : pcase) (o : ob) : obs :=
+  let E := pE p in let ty' := pf_typed (p_fun p) in let h := pf_hint (p_fun p) in
+  let ch := p_choices p in let na := p_nargs p in
+  match o_chan o, o_loaded o with
+  | ChArgv, _ => obs_of (via_plain_argv E ty' h raw_choices_checked ch na (p_toks p))
+  | ChEnv, _ => obs_of (via_plain_env E ty' ch na (pyl p) (p_text p))
+  | ChObject, _ => obs_of (via_plain_object E ty' ch na (p_val p))
+  | ChDoc, Some (LVal lv) => obs_of (via_plain_object E ty' ch na lv)
+  | ChCfgEnv, Some (LVal lv) => obs_of (via_plain_cfgenv E ty' ch na lv)
+  | _, _ => Rejected
+  end.
+
+Definition class_of_plain (p : pcase) : N :=
+  let E := pE p in let ty' := pf_typed (p_fun p) in let h := pf_hint (p_fun p) in
+  let ch := p_choices p in let na := p_nargs p in
+  let C := Cp E ty' ch na in
+  if negb (g_none C TAny (p_val p)) then 1
+  else if negb (g_count na (p_toks p)) then 8
+  else if plain_guard E ty' h raw_choices_checked ch na (pyl p) (p_toks p) (p_text p) (p_val p) then 0
+  else if plain_guard E ty' false raw_choices_checked ch na (pyl p) (p_toks p) (p_text p) (p_val p) then 9
+  else 6.
+
+Definition judge1p (p : pcase) : verdict :=
+  {| v_model := forallb (fun o => negb (o_yaml o) || obs_eqb (model_ob_plain p o) (o_obs o)) (p_obs p)
+                && oracle_consistent (p_oracle p);
+     v_class := class_of_plain p;
+     v_spec := c05_spec (map o_obs (p_obs p)) |}.
+
 (* Group: the leaf keys of ONE parse of a parser with sub-commands (a top-level key and the keys of the chosen
    sub-command), each judged as an ordinary setting: a key of a sub-command goes through the same per-key pipeline
    (for the environment: the sub-parser's parse_env on the SAME mapping, _core.py:538-546) *)
-Inductive ccase := Setting (c : case) | History (h : hcase) | Group (cs : list case).
+Inductive ccase := Setting (c : case) | History (h : hcase) | Group (cs : list case) | Plain (p : pcase).
 
 Definition group_verdict (j : case -> verdict) (cs : list case) : verdict :=
   {| v_model := forallb (fun c => v_model (j c)) cs;
@@ -189,7 +237,7 @@ Definition group_verdict (j : case -> verdict) (cs : list case) : verdict :=
      v_spec := forallb (fun c => v_spec (j c)) cs |}.
 
 Definition judge (cs : list ccase) :=
-  judge_all (fun x => match x with Setting c => judge1 c | History h => judge1h h | Group g => group_verdict judge1 g end) cs.
+  judge_all (fun x => match x with Setting c => judge1 c | History h => judge1h h | Group g => group_verdict judge1 g | Plain p => judge1p p end) cs.
 
 
 (* ---- after fixes/C05-clash-key-unadapted.patch has been applied -------------------------------------------
@@ -203,4 +251,4 @@ Definition unclash (c : case) : case :=
 Definition judge1_fixed (c : case) : verdict := judge1 (unclash c).
 
 Definition judge_fixed (cs : list ccase) :=
-  judge_all (fun x => match x with Setting c => judge1_fixed c | History h => judge1h h | Group g => group_verdict judge1_fixed g end) cs.
+  judge_all (fun x => match x with Setting c => judge1_fixed c | History h => judge1h h | Group g => group_verdict judge1_fixed g | Plain p => judge1p p end) cs.
